@@ -44,15 +44,20 @@ func main() {
 	defer m.Close()
 
 	counterCampaign(o, r, m)
+	counterUnorderedCampaign(o, r, m)
 	backoffCampaign(o, r, m)
 	profLimCampaign(o, r, m)
 	mwCampaign(o, r, m)
+	frontCampaign(o, r, m)
+	wireCampaign(o, r, m)
 	libmwCampaign(o, r, m)
 	vtimeCampaign(o, r, m)
 	vtimeProfCampaign(o, r, m)
 	vtimeExhaustive(o, r, m)
 	concCampaign(o, r, m)
 	consulCampaign(o, r, m)
+	builderCampaign(o, r, m)
+	profileWiringCampaign(o, r)
 	glueCampaigns(o, r, m)
 	timedCampaign(o, r, m)
 	crossCampaign(o, r, m)
@@ -211,13 +216,11 @@ type bcfg struct {
 	yaml bool
 }
 
-// yamlText renders c as the `ratelimit` section of a configuration file.
+// yamlText renders c as a configuration file: config.dist.yaml of the tree
+// under test with the scalars of its `ratelimit` object replaced, so that the
+// property names are the documented ones (builder.go).
 func (c *bcfg) yamlText() string {
-	return fmt.Sprintf("ratelimit:\n  allowlist:\n    type: consul\n    refresh_interval: 1h\n"+
-		"  ipv4:\n    count: %d\n    interval: %s\n    subnet_key_len: %d\n"+
-		"  ipv6:\n    count: %d\n    interval: %s\n    subnet_key_len: %d\n"+
-		"  response_size_estimate: %dB\n  backoff_count: %d\n  backoff_duration: %s\n  backoff_period: %s\n  refuse_any: %v\n",
-		c.c4, c.i4, c.l4, c.c6, c.i6, c.l6, c.est, c.count, c.duration, c.period, c.refuseAny)
+	return distRatelimitYAML(c, "consul", nil)
 }
 
 func dynLine(nets []netip.Prefix) string {
